@@ -40,8 +40,8 @@ META = {
         "block = arange(n) + offset evaluated before offset += n. (R3) every branch of the assembly loop appends "
         "<ad>.jac[sel] and <ad>.val[sel] with the same sel (the zipped row selector under `row is not None`, nothing "
         "otherwise); the three zipped sequences derive from the one dict returned by _parse_equations; block_length is "
-        "the length of the residual block just appended; indices are arange(block_length)+ind_start and ind_start moves "
-        "to one past the block; the residual-only arm evaluates the same operators on the same state, applies the same "
+        "the length of the residual block just appended; indices are arange(block_length)+ind_start, ind_start moves "
+        "to one past the block and the index dict is reset before the loop; the residual-only arm evaluates the same operators on the same state, applies the same "
         "selectors and returns the same sign (-rhs). (R4) columns are sliced by right-multiplying with "
         "projection_to(variables).transpose(). NOT decided: numerical equality of the slices with the full system, that "
         "operators evaluate rows grid-by-grid in mdg order (documented assumption of set_equation), duplicate entries in "
@@ -852,6 +852,28 @@ def _check_assemble(ctx: Ctx, rel: str, fn: ast.FunctionDef, cls_methods: dict) 
 
     # ---- assembled_equation_indices ----------------------------------------------------------------
     loop = full_loops[0]
+    top_stmt = _top_in(pm, loop, fn) if pm[loop] is not fn else loop
+    resets = []
+    for s_ in walk_local(fn):
+        if isinstance(s_, (ast.Assign, ast.AnnAssign)) and s_.value is not None:
+            tg_ = s_.targets[0] if isinstance(s_, ast.Assign) else s_.target
+            if _is_self_attr(tg_, "assembled_equation_indices"):
+                resets.append(s_)
+    body_ = list(fn.body)
+    ok_reset = False
+    for s_ in resets:
+        v_ = s_.value
+        empty_ = (isinstance(v_, ast.Dict) and not v_.keys) or (isinstance(v_, ast.Call) and u(v_.func) == "dict" and not v_.args and not v_.keywords)
+        t_ = s_ if pm[s_] is fn else _top_in(pm, s_, fn)
+        par_ = pm[s_]
+        guarded_ok = par_ is fn or (isinstance(par_, ast.If) and pm[par_] is fn and s_ in par_.body and isinstance(par_.test, ast.Name)
+                                     and par_.test.id in params)
+        if empty_ and guarded_ok and body_.index(t_) < body_.index(top_stmt):
+            ok_reset = True
+    ctx.check("R3", ok_reset, rel, q, resets[0] if resets else loop,
+              "assembled_equation_indices must be reset to an empty dict before the Jacobian blocks are recorded "
+              "(otherwise names from an earlier, different assembly survive)",
+              construct=f"reset assembled_equation_indices: {[u(s_) for s_ in resets]}")
     upd = [s for s in walk_local(loop) if isinstance(s, (ast.Expr, ast.Assign)) and any(
         _is_self_attr(n, "assembled_equation_indices") for n in ast.walk(s))]
     if len(upd) != 1:
@@ -930,8 +952,7 @@ def _check_assemble(ctx: Ctx, rel: str, fn: ast.FunctionDef, cls_methods: dict) 
                 ok = False
         if ok is None:
             raise Undecided(f"{q}: unrecognised advance of '{S}': {u(a)}")
-        after = lbody.index(_top_in(pm, a, loop)) > lbody.index(st) or True
-        ctx.check("R3", bool(ok and after), rel, q, a, f"'{S}' must move to one past the last index of the block just recorded",
+        ctx.check("R3", bool(ok), rel, q, a, f"'{S}' must move to one past the last index of the block just recorded",
                   construct=f"advance {u(a)}")
 
 
@@ -1055,6 +1076,7 @@ MUTANTS = [
     _m("names-zipped-from-all-equations", "for row, equ_name, ad in zip(rows, equ_blocks, ad_list):", "for row, equ_name, ad in zip(rows, self._equations, ad_list):", "R3"),
     _m("rows-reversed", "        rows = list(equ_blocks.values())\n", "        rows = list(equ_blocks.values())[::-1]\n", "R3"),
     _m("block-length-of-whole-equation", "                    block_length = len(rhs[-1])\n", "                    block_length = len(ad.val)\n", "R3"),
+    _m("indices-not-reset", "        if evaluate_jacobian:\n            self.assembled_equation_indices = dict()\n", "        if evaluate_jacobian:\n            pass\n", "R3"),
     _m("index-start-overlaps", "                    ind_start = block_indices[-1] + 1\n", "                    ind_start = block_indices[-1]\n", "R3"),
     _m("index-start-not-advanced", "                if block_length > 0:\n                    ind_start = block_indices[-1] + 1\n", "", "R3"),
     _m("residual-arm-other-state", "            values = self.evaluate(eqs, derivative=False, state=state)\n", "            values = self.evaluate(eqs, derivative=False, state=None)\n", "R3"),
